@@ -368,7 +368,7 @@ fn setup_sandbox(sb: &Sandbox, c: &PrecCase) -> std::path::PathBuf {
 }
 
 fn run_cli_in(w: &Path, args: Vec<String>) -> run::ProcRun {
-    run::spawn(Spawn { program: run::cli_binary(), args, cwd: w, schedule_env: None, trace_file: None, strace: None , hash_seed: None})
+    run::spawn(Spawn { program: run::cli_binary(), args, cwd: w, schedule_env: None, trace_file: None, strace: None , hash_seed: None, fsize_limit: None})
 }
 
 fn find_outputs(root: &Path) -> BTreeMap<String, String> {
